@@ -1,5 +1,5 @@
 SPEC = {
-    "lean_modules": ["AM.Props.C11"],
+    "lean_modules": ["AM.Props.C02", "AM.Props.C11"],
     "theorems": [
         "AM.Snapshot.varint_roundtrip", "AM.Snapshot.decode_encode", "AM.Snapshot.decode_truncated",
         "AM.Snapshot.decode_prefix_never_invalid", "AM.Snapshot.sil_post_prepare", "AM.Snapshot.sil_legacy_upgrade",
@@ -17,6 +17,8 @@ SPEC = {
     ],
     "engines": [
         {"name": "snapshot", "pkg": "./snapshot", "search_cases": 200, "timeout_quick": 300, "timeout_thorough": 900},
+        # "so silences keep muting ... after a restart": the mute verdict after snapshot reload is C02's engine
+        {"name": "silencer", "pkg": "./silencer", "search_cases": 6000, "quick_cases": 1200},
     ],
     "rule": "real nflog.Log and silence.Silences: (a) generated stores (0..200 records quick, ..5000 thorough; shapes mix/min/multi/big, "
             "contents through Merge and through the write APIs Log/Set) -> Snapshot or real Maintenance -> load through SnapshotReader/SnapshotFile "
